@@ -5,7 +5,9 @@ from fractions import Fraction
 PID = "C20"
 TITLE = "Union-find and the priority queue conform to their abstract models"
 LEAN_MODULES = ["Mouette.Props.C20"]
-REQUIRED_THEOREMS = ["inv_run", "uf_refines", "pop_ok", "drain_perm"]
+REQUIRED_THEOREMS = ["inv_init", "inv_step", "inv_run", "find_root", "uf_refines", "elts_eq_present", "counts", "nComps_counts_classes",
+                     "queries_preserve_partition", "component_joined", "component_partition", "components_spec",
+                     "component_mapping_spec", "pop_ok", "pop_none_iff", "empty_correct", "drain_perm", "drain_sorted", "trace_perm"]
 TRUSTED = [
     "Lean 4.33.0 kernel; axioms ⊆ {propext, Classical.choice, Quot.sound}",
     "hand-written model Mouette/Model/UnionFind.lean, PQueue.lean tied to mouette/utils/unionfind.py, priority_queue.py by the history correspondence of this run",
